@@ -354,6 +354,10 @@ func (db *DB) AcquireRemoteHaltLock(ctx context.Context, lockID int64) (_ *HaltL
 	}
 	defer func() {
 		if retErr != nil {
+			// Forget the lock locally as well, otherwise the node would keep
+			// accepting writes under a lock the primary no longer holds for it.
+			db.remoteHaltLock.CompareAndSwap(haltLock, (*HaltLock)(nil))
+
 			if err := db.store.Client.ReleaseHaltLock(ctx, info.AdvertiseURL, db.store.ID(), db.name, haltLock.ID); err != nil {
 				log.Printf("cannot release remote halt lock after acquisition error: %s", err)
 			}
